@@ -893,6 +893,14 @@ func (x *fx) builtin(i *ssa.Call, cc *ssa.CallCommon, b *ssa.Builtin, set func(*
 	case "delete":
 	case "ssa:wrapnilchk":
 		set(args[0])
+	case "SliceData":
+		// unsafe.SliceData(s): the address of s[0] (no bounds check, no dereference)
+		if u, ok := cc.Args[0].Type().Underlying().(*types.Slice); ok {
+			s := args[0]
+			set(&Val{T: i.Type(), S: fmt.Sprintf("(mk-ptr %s %s)", slBase(s.S), x.arrOff(slOff(s.S), u.Elem()))})
+		} else {
+			panic(unsupported("builtin " + b.Name()))
+		}
 	default:
 		panic(unsupported("builtin " + b.Name()))
 	}
